@@ -92,7 +92,7 @@ def run(ctx):
             na_ = rng.randint(3, 4); nh_ = rng.randint(2, 3)
             plan_ = iter([x for hh in range(nh_) for x in (['xxx'] * na_ if hh == nh_ - 1 else [rng.choice(['o', 'o', 'xo'])] * na_)])
             ops, c, r = H.gen_competition(rng, athlib, nath=na_, nheights=nh_, jo_heights=7,
-                                          att_choice=lambda g: next(plan_), jo_letters=('ox', [3, 2]))
+                                          att_choice=lambda g: next(plan_), jo_letters=('oxr', [6, 4, 1]) if i % 24 == 0 else ('ox', [3, 2]), peek=(i % 24 == 12))
         elif i % 3 != 2:
             ops, c, r = H.gen_competition(rng, athlib, nath=rng.randint(2, 4), nheights=rng.randint(1, 3), jo_heights=3 if ctx.quick() else 5,
                                           att_choice=lambda g: g.choice(['o', 'o', 'o', 'xo', 'xo', 'xxx', 'xxx']), peek=(i % 6 == 1))
